@@ -9,6 +9,7 @@ import (
 
 	"github.com/openziti/storage/ast"
 	"github.com/openziti/storage/boltz"
+	"go.etcd.io/bbolt"
 	rm "verif/refmodel"
 	"verif/report"
 )
@@ -244,7 +245,19 @@ func c01Atoms(thorough bool) []qAtom {
 		add("dotted-set-fk-field", true, rm.Cmp{L: fn("reports.boss.s"), Op: "=", R: S("a")})
 		add("dotted-set-fk-field", true, rm.Cmp{L: fn("reports.boss.id"), Op: "=", R: S("e1")})
 		add("dotted-set-id", true, rm.Cmp{L: fn("reports.id"), Op: "=", R: S("e2")})
+		// a set below a set: the traversal has to back up from an inner set that is empty / was never created
+		for _, other := range []string{"e1", "e2"} {
+			add("dotted-2hop-set", true, rm.Cmp{L: fn("reports.reports"), Op: "=", R: S(other)})
+			add("dotted-2hop-set", true, rm.Cmp{L: fn("reports.reports"), Op: "!=", R: S(other)})
+		}
+		add("dotted-2hop-set", true, rm.Cmp{L: fn("reports.reports.s"), Op: "=", R: S("a")})
+		add("dotted-2hop-set", true, rm.Cmp{L: fn("reports.reports.roles"), Op: "=", R: S("a")})
+		add("dotted-2hop-set", true, rm.Cmp{L: fn("reports.places"), Op: "=", R: S("l1")})
+		add("dotted-2hop-set", true, rm.Cmp{L: fn("reports.places.name"), Op: "=", R: S("y")})
+		add("dotted-2hop-set", true, rm.Cmp{L: fn("places.people.reports"), Op: "=", R: S("e1")})
 	}
+	add("dotted-2hop-set", true, rm.IsEmpty{Sym: "reports.reports"})
+	add("dotted-2hop-set", true, rm.IsEmpty{Sym: "reports.places"})
 	add("dotted-link-name", true, rm.IsEmpty{Sym: "places.name"})
 	// ---- sub-queries
 	subs := []*rm.SubQ{
@@ -373,7 +386,7 @@ func C01(tier string) int {
 	var jobs []job
 	for _, k := range famKeys {
 		jobs = append(jobs, job{k, []string{"e1", "e2"}})
-		if thorough && !strings.Contains(k, "+") && k != "" {
+		if (thorough && !strings.Contains(k, "+") && k != "") || k == "boss" || k == "boss+places" {
 			jobs = append(jobs, job{k, []string{"e1", "e2", "e3"}})
 		}
 	}
@@ -445,12 +458,9 @@ func c01RunFamily(rep *report.Report, key string, ids []string, filters []*c01Fi
 		if rep.TooMany() {
 			return
 		}
-		_ = w.db.Update(nil, func(ctx boltz.MutateContext) error {
-			if err := w.materialise(ctx, ds); err != nil {
-				rep.Violation("C01|materialise|"+label, "cannot build dataset: "+err.Error(), map[string]interface{}{"dataset": label})
-				return errSkip
-			}
-			tx := ctx.Tx()
+		// every (filter, dataset) pair is evaluated twice: inside the transaction that wrote the dataset
+		// (uncommitted pages) and in a read transaction after the commit (committed pages)
+		evalAll := func(tx *bbolt.Tx, mode string) {
 			for _, p := range parsed {
 				var want []string
 				unspecified := false
@@ -468,6 +478,7 @@ func c01RunFamily(rep *report.Report, key string, ids []string, filters []*c01Fi
 				}
 				rep.Count("evaluations", 1)
 				rep.Count("compared_pairs", 1)
+				rep.Count("pairs_"+mode, 1)
 				ws := strings.Join(want, ",")
 				check := func(route string, got []string, err error, pan interface{}) {
 					if pan != nil {
@@ -479,7 +490,7 @@ func c01RunFamily(rep *report.Report, key string, ids []string, filters []*c01Fi
 						return
 					}
 					if strings.Join(got, ",") != ws {
-						rep.Violation("C01|wrong-result|"+p.f.text, fmt.Sprintf("%s(%q) on %s = %v, reference says %v", route, p.f.text, label, got, want), map[string]interface{}{"filter": p.f.text, "dataset": label, "route": route, "got": got, "want": want})
+						rep.Violation("C01|wrong-result|"+p.f.text, fmt.Sprintf("%s(%q) on %s [%s] = %v, reference says %v", route, p.f.text, label, mode, got, want), map[string]interface{}{"filter": p.f.text, "dataset": label, "route": route, "got": got, "want": want})
 					}
 				}
 				func() {
@@ -516,8 +527,18 @@ func c01RunFamily(rep *report.Report, key string, ids []string, filters []*c01Fi
 				rep.Outcome(p.f.class)
 			}
 			first = false
+		}
+		_ = w.db.Update(nil, func(ctx boltz.MutateContext) error {
+			if err := w.materialise(ctx, ds); err != nil {
+				rep.Violation("C01|materialise|"+label, "cannot build dataset: "+err.Error(), map[string]interface{}{"dataset": label})
+				return errSkip
+			}
+			evalAll(ctx.Tx(), "uncommitted")
 			return errSkip
 		})
+		if err := w.committed(ds, func(tx *bbolt.Tx) { evalAll(tx, "committed") }); err != nil {
+			rep.Violation("C01|materialise-committed|"+label, "cannot build/commit/clear dataset: "+err.Error(), map[string]interface{}{"dataset": label})
+		}
 	})
 	if len(parsed) > 0 {
 		rep.Sample(map[string]interface{}{"family": key, "entities": len(ids), "filter": parsed[0].f.text})
